@@ -710,7 +710,9 @@ func buildOps(name string, win bool, tier string) []fsx.Call {
 	}
 
 	// deliberately invalid / aliased operands
-	extra := []string{"", "a", j("a", ".."), j("a", "a", "a"), j("tmp")}
+	// j("a","ab","a","ab"): the path of a directory occurs again inside the path of
+	// one of its descendants (code that rewrites path strings must anchor them)
+	extra := []string{"", "a", j("a", ".."), j("a", "a", "a"), j("a", "ab", "a", "ab"), j("tmp")}
 	if tier == "thorough" {
 		extra = append(extra, ".", "..", j("a")+string(root[len(root)-1]), j("a", "ab", "..", "a"))
 	}
@@ -740,6 +742,17 @@ func buildOps(name string, win bool, tier string) []fsx.Call {
 				fsx.Call{Op: "AppendFile", A: p, Data: "yz"},
 				fsx.Call{Op: "ReadDir", A: p},
 				fsx.Call{Op: "Stat", A: p},
+			)
+		}
+	}
+
+	if name == "MemFS" {
+		// the same creations issued through a fresh view of the root (MemFS.Sub):
+		// views share the tree, the link counters and the file identities
+		for _, p := range paths {
+			ops = append(ops,
+				fsx.Call{Op: "Sub/WriteFile", A: p, Data: "v", Perm: 0o644},
+				fsx.Call{Op: "Sub/Mkdir", A: p, Perm: 0o755},
 			)
 		}
 	}
